@@ -25,6 +25,8 @@ def run(tier, replay=None):
         common.model_checks(v, [
             ("Listener", "MC_Listener.cfg", {"workers": 8, "heap": "4g"}, "pass"),
             ("Listener", "XF_SpawnPerEvent.cfg", {"workers": 4}, "fail"),
+            ("Listener", "XF_DropWhenBusy.cfg", {"workers": 2}, "fail"),
+            ("Listener", "XF_DoneOnClose.cfg", {"workers": 2}, "fail"),
         ])
     summ = common.harness_traces("c10", tier, shards=4, env={"TZ": "UTC"}, extra_args=["-x", "layouts=" + layouts], timeout=3600)
     common.validate(v, "Trace_Api", "Trace_Api.cfg", summ, key)
@@ -52,5 +54,5 @@ def run(tier, replay=None):
     v.coverage["rule"] = ("real Listen() on loopback: %d scenarios (start/stop cycles) of 1-3 senders x 1-12 datagrams over {valid, valid 0x19, wrong length incl. > 2048, serial 0, wrong code, wrong protocol id, malformed field}; "
                           "each delivered status compared with the specification's decoding of its datagram at delivery and again after the run (Stable); "
                           "Rig S: the handler fed from one reused, overwritten buffer with every one-byte field over all 256 values. distinct = delivered events" % len(scns))
-    v.coverage["checker_cmd"] = "tlc Listener (MC_Listener: invariants + PROPERTY Terminates; XF_SpawnPerEvent); tlc Trace_Listener; tlc Trace_Api (EventDecoded, Stable)"
+    v.coverage["checker_cmd"] = "tlc Listener (MC_Listener: invariants + PROPERTY Terminates; XF_SpawnPerEvent, XF_DropWhenBusy, XF_DoneOnClose); tlc Trace_Listener; tlc Trace_Api (EventDecoded, Stable)"
     return v.finish(write_evidence=replay is None)
